@@ -24,6 +24,8 @@ PINS = os.path.join(HERE, 'poolpins.json')
 
 # the parent-side functions Model/Pool.v (and Model/PoolSys.v) copy, by what they decide
 GROUPS = {
+    'setup': ['Pool.__init__', 'Pool._setup_queues', 'Pool.create_result_handler', 'Pool.get_process_queues',
+              'Pool._process_register_queues', 'ResultHandler.__init__', 'Supervisor.__init__', 'PoolThread.__init__'],
     'jobs': ['ApplyResult.__init__', 'ApplyResult._set', 'ApplyResult._ack', 'ApplyResult.get', 'ApplyResult.wait',
              'ApplyResult.ready', 'ApplyResult.safe_apply_callback', 'ApplyResult._set_terminated',
              'ApplyResult.worker_pids', 'ApplyResult._cancel', 'ApplyResult.discard',
@@ -52,15 +54,15 @@ GROUPS = {
 }
 # which groups each property's theorems are about
 BY_PROPERTY = {
-    'C01': ['jobs'],
-    'C04': ['loss', 'jobs'],
-    'C05': ['limits', 'jobs'],
-    'C06': ['limits', 'worker_signals'],
-    'C07': ['close', 'jobs', 'size'],
-    'C08': ['terminate', 'loss'],
-    'C09': ['size', 'loss'],
-    'C10': ['jobs', 'loss', 'close'],
-    'C11': ['size', 'close'],
+    'C01': ['jobs', 'setup'],
+    'C04': ['loss', 'jobs', 'setup'],
+    'C05': ['limits', 'jobs', 'setup'],
+    'C06': ['limits', 'worker_signals', 'setup'],
+    'C07': ['close', 'jobs', 'size', 'setup'],
+    'C08': ['terminate', 'loss', 'setup'],
+    'C09': ['size', 'loss', 'setup'],
+    'C10': ['jobs', 'loss', 'close', 'setup'],
+    'C11': ['size', 'close', 'setup'],
 }
 
 
